@@ -658,3 +658,115 @@ Theorem C12_generic_reader_reads_secrets_writer_bytes :
     read_keyset (Secrets.ser_keyset (Untrusted.mkKS pr (map Some pks))) = Some (SecretsSerialBridge.to_pkeyset pr pks).
 Proof. exact SecretsSerialBridge.generic_reader_reads_ser_keyset. Qed.
 Print Assumptions C12_generic_reader_reads_secrets_writer_bytes.
+
+(* ================================================================== *)
+(* keysets through the JSON writer and reader, as TEXT                  *)
+(* ================================================================== *)
+(* model/JsonKeyset.v reads the JSON text of a tinkpb.Keyset / EncryptedKeyset as
+   keyset.NewJSONReader does (protojson.Unmarshal with default options: the
+   tokenizer and value parser of model/Json.v, then the two schemas) and prints
+   such messages in a canonical form of its own (protojson's output is
+   deliberately unstable: only what the reader makes of a text matters);
+   model/JsonKeysetC12.v carries messages and handles of model/Serial.v through
+   it.  (Imported here, after the statements above: these files reuse names.) *)
+From Tink Require Import JsonKeyset JsonKeysetProofs JsonKeysetC12 JsonKeysetC12Proofs.
+
+(* every message of the printer's domain (numbers below 2^32, UTF-8 type URLs,
+   byte-string values) is read back from its text *)
+Theorem C12_json_print_then_read :
+  (forall ks, keyset_ok ks = true -> keyset_of_json_text (json_text_of_keyset ks) = Some ks)
+  /\ (forall e, encrypted_ok e = true -> encrypted_of_json_text (json_text_of_encrypted e) = Some e).
+Proof. split; [exact keyset_text_roundtrip|exact encrypted_text_roundtrip]. Qed.
+Print Assumptions C12_json_print_then_read.
+
+(* tinkpb.Keyset through the JSON writer and reader: every well-formed proto
+   keyset (the domain of C12_proto_keyset_roundtrip) whose key values are byte
+   strings - the model's bytes are lists of numbers; a Go []byte cannot be
+   anything else - comes back, enums outside their range included *)
+Theorem C12_json_proto_keyset_roundtrip :
+  forall ks, wf_pkeyset ks = true -> values_are_bytes ks = true ->
+    read_keyset_json (write_keyset_json ks) = Some ks.
+Proof. exact proto_keyset_json_roundtrip. Qed.
+Print Assumptions C12_json_proto_keyset_roundtrip.
+
+(* insecurecleartextkeyset.Write then Read with the JSON writer and reader gives
+   the same handle back (C12_cleartext_roundtrip for JSON) *)
+Theorem C12_json_cleartext_roundtrip :
+  forall K ser_k par_k (es : list (entry K)) text,
+    wf_handle K ser_k par_k es ->
+    (forall ks, entries_to_proto_keyset K ser_k es = Some ks -> values_are_bytes ks = true) ->
+    write_cleartext_json K ser_k es = Some text ->
+    read_cleartext_json K par_k text = Some es.
+Proof. exact json_cleartext_roundtrip. Qed.
+Print Assumptions C12_json_cleartext_roundtrip.
+
+(* Handle.WriteWithAssociatedData then keyset.ReadWithAssociatedData, JSON: the
+   text carries the ciphertext of the BINARY keyset and keyset_info; for every
+   AEAD with dec ad (enc ad p) = p whose ciphertext of this keyset is a byte string *)
+Theorem C12_json_encrypted_roundtrip :
+  forall K ser_k par_k (aead_enc : bytes -> bytes -> bytes) (aead_dec : bytes -> bytes -> option bytes),
+    (forall ad p, aead_dec ad (aead_enc ad p) = Some p) ->
+    forall (es : list (entry K)) ad text,
+      wf_handle K ser_k par_k es ->
+      write_encrypted_json K ser_k aead_enc es ad = Some text ->
+      (forall ks, entries_to_proto_keyset K ser_k es = Some ks ->
+         N.of_nat (length (write_keyset ks)) < 2 ^ 64 /\ bytes_okb (aead_enc ad (write_keyset ks)) = true) ->
+      read_encrypted_json K par_k aead_dec text ad = Some es.
+Proof. intros K ser_k par_k enc dec AC es ad text. apply json_encrypted_roundtrip. exact AC. Qed.
+Print Assumptions C12_json_encrypted_roundtrip.
+
+(* at the registry (the composition with C12_registry_entries_roundtrip): for
+   every well-formed handle of registered keys the JSON writer succeeds and the
+   JSON reader gives the handle back.  What is NOT derived: that the key
+   serialisations are byte strings (values_are_bytes) - wf_dhandle does not say
+   it, the model's bytes carry no bound - it stays a premise. *)
+Theorem C12_registry_json_cleartext_roundtrip :
+  forall (schemas : bytes -> option schema),
+    (forall url sch, schemas url = Some sch -> wf_schema sch = true) ->
+    forall es, wf_dhandle (registry schemas) es ->
+      (forall ks, entries_to_proto_keyset dkey dser es = Some ks -> values_are_bytes ks = true) ->
+      exists text, write_cleartext_json dkey dser es = Some text
+        /\ read_cleartext_json dkey (dpar (registry schemas)) text = Some es.
+Proof. exact registry_json_cleartext_roundtrip. Qed.
+Print Assumptions C12_registry_json_cleartext_roundtrip.
+
+Theorem C12_registry_json_encrypted_roundtrip :
+  forall (schemas : bytes -> option schema),
+    (forall url sch, schemas url = Some sch -> wf_schema sch = true) ->
+    forall (aead_enc : bytes -> bytes -> bytes) (aead_dec : bytes -> bytes -> option bytes),
+      (forall ad p, aead_dec ad (aead_enc ad p) = Some p) ->
+      forall es ad, wf_dhandle (registry schemas) es ->
+        exists text, write_encrypted_json dkey dser aead_enc es ad = Some text
+          /\ ((forall ks, entries_to_proto_keyset dkey dser es = Some ks ->
+                 N.of_nat (length (write_keyset ks)) < 2 ^ 64 /\ bytes_okb (aead_enc ad (write_keyset ks)) = true) ->
+              read_encrypted_json dkey (dpar (registry schemas)) aead_dec text ad = Some es).
+Proof. exact registry_json_encrypted_roundtrip. Qed.
+Print Assumptions C12_registry_json_encrypted_roundtrip.
+
+(* the JSON reader refuses: an unknown member name or two members for one field in
+   any object of the message; trailing data after an accepted text *)
+Theorem C12_json_reader_refusals :
+  (forall tab f k v seen, In (k, v) f -> field_number tab k = None -> resolve tab f seen = None)
+  /\ (forall tab f1 k1 v1 f2 k2 v2 f3 n seen, field_number tab k1 = Some n -> field_number tab k2 = Some n ->
+        resolve tab (f1 ++ (k1, v1) :: f2 ++ (k2, v2) :: f3) seen = None)
+  /\ (forall s ks c t, keyset_of_json_text s = Some ks -> Json.is_ws c = false -> keyset_of_json_text (s ++ c :: t) = None).
+Proof.
+  split; [intros tab f k v seen I U; exact (resolve_unknown_field tab f k v I U seen)|].
+  split; [intros tab f1 k1 v1 f2 k2 v2 f3 n seen F1 F2; exact (resolve_duplicate_field tab f1 k1 v1 f2 k2 v2 f3 n F1 F2 seen)|].
+  exact keyset_text_trailing_data.
+Qed.
+Print Assumptions C12_json_reader_refusals.
+
+(* handle A of C12_nonvacuous_registry_handle (a LEGACY AES-GCM key, disabled, and an
+   enabled primary with id 2^32-1) through the JSON writer and reader, cleartext and
+   encrypted with the toy AEAD: all premises of the theorems above are met *)
+Example C12_nonvacuous_json_handle :
+  write_cleartext_json dkey dser exA_es = Some exA_json /\
+  read_cleartext_json dkey (dpar (registry ex_schemas)) exA_json = Some exA_es /\
+  (forall ks, entries_to_proto_keyset dkey dser exA_es = Some ks -> values_are_bytes ks = true) /\
+  write_encrypted_json dkey dser toy_enc exA_es [1; 2; 3] = Some exA_json_enc /\
+  read_encrypted_json dkey (dpar (registry ex_schemas)) toy_dec exA_json_enc [1; 2; 3] = Some exA_es /\
+  read_encrypted_json dkey (dpar (registry ex_schemas)) toy_dec exA_json_enc [1; 2; 4] = None /\
+  (forall ks, entries_to_proto_keyset dkey dser exA_es = Some ks ->
+     N.of_nat (length (write_keyset ks)) < 2 ^ 64 /\ bytes_okb (toy_enc [1; 2; 3] (write_keyset ks)) = true).
+Proof. exact exA_json_facts. Qed.
